@@ -484,4 +484,71 @@ func runC14(r *an.Run) {
 				}
 			}
 		})
+
+	r.Obl("reorg-tracking-and-hint-writes-unconditional", "PATH",
+		"dispatchConfDetails records the request under confsByInitialHeight[first height] on every successful path unless the confirmation is already beyond the reorg safety limit (or there are no details / the client was already served); dispatchSpendDetails does the same with spendsByHeight; the at-tip handlers always record; HeightHintCache.CommitSpendHint / CommitConfirmHint store the hint for every request they are given",
+		"a confirmation that is not tracked gets no reorg notice when its block is disconnected and its stale details are handed to later clients; a hint write that is skipped leaves a hint above the event after a reorg", 6,
+		func(o *an.Obl) {
+			cur := an.FieldPath(an.Recv(), "currentHeight")
+			idxAssign := func(f *an.Func, mapSuffix string) []an.Site {
+				var out []an.Site
+				for _, v := range f.Graph().V {
+					as, ok := v.Node.(*ast.AssignStmt)
+					if !ok || len(as.Lhs) != 1 {
+						continue
+					}
+					ix, ok := as.Lhs[0].(*ast.IndexExpr)
+					if !ok {
+						continue
+					}
+					// txSet[request] = struct{}{} where txSet was taken from the map
+					if id, isID := ix.X.(*ast.Ident); isID {
+						if d := f.UniqueDef(id); d != nil && strings.Contains(f.Canon(d), mapSuffix+"[") {
+							out = append(out, an.Site{Fn: f, V: v, Node: as})
+							continue
+						}
+						// defined by `x, ok := m[k]` (two-value form) or assigned later
+						for _, s := range f.Assigns(an.LocalNamed(id.Name), false) {
+							if strings.Contains(an.Text(s.Node), mapSuffix+"[") {
+								out = append(out, an.Site{Fn: f, V: v, Node: as})
+								break
+							}
+						}
+					}
+				}
+				return out
+			}
+			// after the early exits (no details / already served) the only
+			// exemption is the safety limit
+			f := p.Func(tn + "dispatchConfDetails")
+			if ch := f.Assigns(an.LocalNamed("confHeight"), false); need(o, f, "confHeight", ch, 1) {
+				mustDoUnlessFrom(o, f, ch[0].V, "confsByInitialHeight insert", idxAssign(f, ".confsByInitialHeight"), f.StrictSuccessReturns(),
+					an.CmpX(an.LocalNamed("reorgSafeHeight"), an.LE, cur, "reorgSafeHeight <= currentHeight"))
+			}
+			g := p.Func(tn + "dispatchSpendDetails")
+			if sp := sendsOn(g, "Spend"); need(o, g, "send on Event.Spend", sp, 1) {
+				mustDoUnlessFrom(o, g, sp[0].V, "spendsByHeight insert", idxAssign(g, ".spendsByHeight"), g.StrictSuccessReturns(),
+					an.CmpX(an.LocalNamed("reorgSafeHeight"), an.LE, cur, "reorgSafeHeight <= currentHeight"))
+			}
+			h := p.Func(tn + "handleConfDetailsAtTip")
+			var hret []an.Site
+			for _, s := range h.Returns() {
+				hret = append(hret, s)
+			}
+			exit := an.Site{Fn: h, V: h.Graph().Exit, Node: h.Body}
+			mustDoUnless(o, h, "confsByInitialHeight insert", idxAssign(h, ".confsByInitialHeight"), []an.Site{exit},
+				an.IsNil(an.FieldPath(an.LocalNamed("confSet"), "details"), false, "confSet.details != nil (address reuse)"))
+			k := p.Func(tn + "handleSpendDetailsAtTip")
+			mustDoUnless(o, k, "spendsByHeight insert", idxAssign(k, ".spendsByHeight"), []an.Site{{Fn: k, V: k.Graph().Exit, Node: k.Body}})
+			for _, name := range []string{"CommitSpendHint", "CommitConfirmHint"} {
+				c := p.Func("channeldb.HeightHintCache." + name)
+				for _, lf := range c.Lits {
+					puts := lf.Calls(an.CalleeNamed("Put"), false)
+					if len(puts) == 0 {
+						continue
+					}
+					everyIteration(o, lf, `^\$p1$|Requests$`, puts, "Put(hint)")
+				}
+			}
+		})
 }
